@@ -10,6 +10,24 @@ NOTE = ("Trusted: Coq 8.16.1 kernel (no axioms: every property theorem prints 'C
         "The theorems are about the hand-written Gallina model; the model is tied to /repo on every run by the table "
         "translator and by the differential correspondence run, which bounds what has been exercised.")
 CLAIMED = {
+    "C03": dict(
+        text="9 theorems. PARSER HALF, full: for EVERY layout tree of the token grammar (scalars, aliases, left-out and properties-only "
+             "nodes, block and indentless sequences, block mappings, flow sequences with wrapped and unwrapped single pairs incl. a "
+             "left-out key, flow mappings; Key/Value present or absent, trailing commas, either property order), any spans, the parser "
+             "model emits exactly the events of the tree (C03_tokens_full, C03_node_continuation); whole STREAMS: any number of "
+             "documents with %YAML/%TAG directives, optional '---', any number of '...', keep_tags on/off, anchors local to a document, "
+             "ids counting through the stream (C03_stream, C03_directive_table); the fuel 4*tokens+40 of parse_tokens always suffices. "
+             "SCANNER HALF for one text sub-language (single-line flow collections of one-word plain scalars, ', ' and ': ' separators, "
+             "single pairs in sequences, nesting <= 255, any length): scan_str delivers exactly StreamStart, tokens_of(layout), "
+             "StreamEnd and run_str emits exactly the denoted events (C03_flow_text_tokens, C03_flow_text_events) - text to events "
+             "end to end, incl. the simple-key back-insertion, implicit-mapping states, 127-character chunks and both ways a key goes "
+             "stale. Everything else of the scanner half (block structure, multi-line flow, comments, quoted scalars, properties in "
+             "text) is covered by the tie only. Tie/oracle: 24k (300k) random node trees x an independent spec-derived renderer "
+             "(indent widths, placement, comments, blank lines, styles, property order, 1-3 documents, directives), events computed "
+             "from the tree, str and iterator back-ends, model pipeline vs implementation; yaml-test-suite non-error cases and "
+             "layout-preserving variants; the real token stream vs tokens_of for the theorem's text class. All six recorded C03 "
+             "findings were repaired in /repo and are regression inputs now.",
+        ref="DESIGN.md 5/C03", tech="Rocq proof (parser half: all token layouts and streams; scanner half: flow text sub-language, text -> events) + spec-derived renderer oracle on implementation + differential correspondence; block-structure scanner half partial"),
     "C05": dict(
         text="14 theorems against an independent specification of YAML 1.2.2 section 8.1 (Spec/BlockScalar.v: line model, content "
              "indentation, classification, block_value, a renderer; imports nothing from the model; the spec's examples 8.2-8.13 are "
